@@ -22,6 +22,8 @@ GEOMS = ["growth", "gauss", "far", "int", "quarter", "tiny", "big", "coincident"
 PYTHAG = [(1, 0, 0, 1), (3, 4, 0, 5), (1, 2, 2, 3), (2, 3, 6, 7), (1, 4, 8, 9), (4, 4, 7, 9),
           (2, 6, 9, 11), (6, 6, 7, 11)]
 TYPES = ["soma", "random", "nonsoma"]
+SPECIAL_SIZES = [3, 4, 5, 7, 8, 9, 10, 15, 16, 17, 20, 31, 32, 33, 50, 63, 64, 65, 100, 127, 128, 129,
+                 200, 255, 256, 257, 300]
 
 
 def parent_array(rng, shape: str, n: int) -> np.ndarray:
@@ -560,6 +562,15 @@ def random_recipe(rng, *, max_n=40, shapes=None, geoms=None, numbering=None, typ
     shapes = shapes or SHAPES
     shape = str(rng.choice(shapes))
     n = int(rng.integers(1, max_n + 1))
+    u_ = rng.random()
+    if u_ < 0.2:
+        # sizes on and next to powers of two / typical block sizes: uniformly drawn sizes hit
+        # them too rarely for a defect that needs exactly such a size to show
+        c_ = [v for v in SPECIAL_SIZES if v <= max_n]
+        if c_:
+            n = int(c_[int(rng.integers(0, len(c_)))])
+    elif u_ < 0.215 and max_n >= 150:
+        n = int(rng.choice([511, 512, 513, 1000, 1023, 1024, 1025]))
     if shape == "single":
         n = 1
     elif shape == "pair":
